@@ -7,6 +7,9 @@ starting a line with `//@`:
   //@prove <file> <Item::path> [nth=<k>] [impl~<regex>] [rename=<new>] [ret=<name>]
   //@contract                  lines up to the next directive: requires/ensures/decreases block
   //@loop <ordinal>            lines up to the next directive: invariant/decreases of the k-th loop
+  //@beforeloop <ordinal>      ghost text inserted right before the k-th loop's keyword
+  //@foriter <ordinal>         one line: the name given to the k-th (for-in) loop's ghost iterator
+  //@afterloop <ordinal>       ghost text inserted right after the k-th loop's closing brace
   //@after <regex>             lines up to the next directive: ghost text inserted after the match
   //@before <regex>            same, inserted before the match
   //@end
@@ -304,7 +307,7 @@ def find_loops(body_bl):
             ob = first_open_brace(body_bl, m.end())
         except AnchorLost:
             continue
-        res.append(ob)
+        res.append((ob, m.start(), m.end()))
     return res
 
 
@@ -503,13 +506,24 @@ def generate(template_path, twin=False):
             txt = "\n".join(b["text"])
             if b["kind"] == "contract":
                 continue
-            if b["kind"] == "loop":
+            if b["kind"] in ("loop", "afterloop", "beforeloop", "foriter"):
                 if loops is None:
                     loops = find_loops(body_bl)
                 k = int(b["arg"])
                 if k >= len(loops):
                     raise AnchorLost("%s: loop #%d not found (have %d)" % (item, k, len(loops)))
-                inserts.append((loops[k], "\n" + txt + "\n"))
+                if b["kind"] == "loop":
+                    inserts.append((loops[k][0], "\n" + txt + "\n"))
+                elif b["kind"] == "beforeloop":
+                    inserts.append((loops[k][1], "\n" + txt + "\n"))
+                elif b["kind"] == "foriter":
+                    # name the ghost iterator of a `for PAT in EXPR` loop: `for PAT in NAME: EXPR`
+                    mm = re.compile(r"\bin\b").search(body_bl, loops[k][2])
+                    if not mm or mm.start() > loops[k][0]:
+                        raise AnchorLost("%s: loop #%d is not a for-in loop" % (item, k))
+                    inserts.append((mm.end(), " " + txt.strip() + ": "))
+                else:
+                    inserts.append((match_brace(body_bl, loops[k][0]) + 1, "\n" + txt + "\n"))
             elif b["kind"] in ("after", "before", "after?", "before?"):
                 # anchors are matched on the body with comments and string contents blanked
                 optional = b["kind"].endswith("?")
